@@ -114,7 +114,7 @@ EXPORT errno_t _strnset_s_chk(char *restrict dest, rsize_t dmax, int value, rsiz
     }
 #ifdef SAFECLIB_STR_NULL_SLACK
     /* null slack to clear any data */
-    if (!*dest)
+    if ((rsize_t)(dest - orig_dest) < dmax && !*dest)
         memset(dest, 0, dmax - (dest - orig_dest));
 #endif
 
